@@ -190,7 +190,7 @@ def run(ctx):
             inputs.append(("enc_shape", "utest", "enc", lf["input"][0]["enc"]))
         elif lf["input"]:
             inputs.append(("shape", "utest", "dec", shape_bytes(lf["input"], lf["outcome"])))
-    for lab, w, data in structured(rng) + mutations(rng, 1200 if ctx.quick else 60000):
+    for lab, w, data in structured(rng) + mutations(rng, 700 if ctx.quick else 60000):
         inputs.append((lab, w, "dec", data))
     for n in (50, 2000, 2047, 2048, 5000, 8000, 8100, 8150, 8200, 9000, 20000):
         inputs.append(("enc_long_value", "utest", "enc1", n))
@@ -225,8 +225,11 @@ def run(ctx):
         evs = res.get("t%d" % n) or []
         ab = next((e for e in evs if e["e"] == "Abort"), None)
         main = next((e for e in evs if e["e"] in ("Decode", "Encode")), None)
+        san = "none"
         if ab is not None:
             rc, ms = "abort:" + ab["how"], 0
+            if ab["how"] == "sanitizer":
+                san = "%s:%s" % dc.san_kind(ab.get("report", ""))
         elif main is None:
             rc, ms = "lost", 0
         else:
@@ -235,7 +238,7 @@ def run(ctx):
             rc = "ok" if ok else ("exc" if exc else "otherexc")
             ms = (main.get("us", 0) + main.get("re_us", 0) + main.get("b_us", 0)) // 1000
         execs.append([{"e": "Reset", "prop": "C03", "schema": w},
-                      {"e": "Try", "kind": "dec" if kind == "dec" else "enc", "res": rc, "ms": ms, "bound": BOUND_MS, "f": meta[n], "label": lab}])
+                      {"e": "Try", "kind": "dec" if kind == "dec" else "enc", "res": rc, "ms": ms, "bound": BOUND_MS, "f": meta[n], "label": lab, "san": san}])
     if ctx.extra.get("selftest"):
         return execs
     fails, labels, info = dc.validate(ctx, execs, "c03")
